@@ -45,14 +45,17 @@ ClassValue(c) ==
       [] c = "flt_frac"    -> V("float", <<"1", ".", "5">>)
       [] c = "flt_negfrac" -> V("float", <<"-", "0", ".", "2", "5">>)
       [] c = "flt_tiny"    -> V("float", <<"0", ".", "0", "0", "0", "0", "0", "0", "1">>)
-      [] c = "flt_integral" -> V("float", <<"2">>)              \* 2.0 is formatted "2"
-      [] c = "flt_negintegral" -> V("float", <<"-", "3">>)      \* -3.0 -> "-3"
-      [] c = "flt_zero"    -> V("float", <<"0">>)               \* 0.0 -> "0"
+      [] c = "flt_integral" -> V("float", <<"2">>)              \* 2.0: FormatFloat gives "2"
+      [] c = "flt_negintegral" -> V("float", <<"-", "3">>)      \* -3.0: "-3"
+      [] c = "flt_zero"    -> V("float", <<"0">>)               \* 0.0: "0"
       [] c = "flt_1e19"    -> V("float", <<"1","0","0","0","0","0","0","0","0","0","0","0","0","0","0","0","0","0","0","0">>)
 
 (* ---- writer ---- *)
 Quote == "\""
-FmtValue(v) == IF v.k = "str" THEN <<Quote>> \o v.t \o <<Quote>> ELSE v.t   \* needsQuoting: all but true/false
+HasDot(s) == \E i \in 1 .. Len(s) : s[i] = "."
+FmtValue(v) == IF v.k = "str" THEN <<Quote>> \o v.t \o <<Quote>>        \* needsQuoting: all but true/false
+               ELSE IF v.k = "float" /\ ~HasDot(v.t) THEN v.t \o <<".", "0">>   \* integral floats keep a ".0"
+               ELSE v.t
 KVLine(key, v, comment) == Chars(key) \o <<" ", "=", " ">> \o FmtValue(v) \o
                            (IF comment = <<>> THEN <<>> ELSE <<" ", "#", " ">> \o comment)
 RECURSIVE SetToSeq(_)
@@ -104,11 +107,14 @@ IsFloatText(s) == LET u == Unsigned(s)  p == IndexOf(u, ".", 1)
                      ELSE (Len(u) > 1 /\ (p = 1 \/ IsDigits(SubSeq(u, 1, p - 1)))
                            /\ (p = Len(u) \/ IsDigits(SubSeq(u, p + 1, Len(u)))))
 CanonInt(s) == s       \* the classes use canonical texts
+(* a float is identified by its shortest 'f' text: "2.0" denotes the same number as "2" *)
+CanonFloat(s) == IF Len(s) > 2 /\ s[Len(s)] = "0" /\ s[Len(s) - 1] = "." /\ ~HasDot(SubSeq(s, 1, Len(s) - 2))
+                 THEN SubSeq(s, 1, Len(s) - 2) ELSE s
 ParseValue(val) ==
     IF val # <<>> /\ Head(val) = Quote /\ val[Len(val)] = Quote THEN V("str", TrimQuotes(val))
     ELSE IF val \in {<<"t","r","u","e">>, <<"f","a","l","s","e">>} THEN V("bool", val)
     ELSE IF IsIntText(val) THEN V("int", CanonInt(val))
-    ELSE IF IsFloatText(val) THEN V("float", val)
+    ELSE IF IsFloatText(val) THEN V("float", CanonFloat(val))
     ELSE V("str", val)
 Put(f, k, v) == [x \in (DOMAIN f) \cup {k} |-> IF x = k THEN v ELSE f[x]]
 Ensure(d, sec) == IF sec \in DOMAIN d THEN d ELSE Put(d, sec, <<>>)
@@ -154,6 +160,19 @@ Case == [ secs |-> DocJson,
           roundtrips |-> RoundTrips(Concrete(doc)),
           commentInert |-> CommentInert(Concrete(doc)) ]
 Emit == PrintT("@@CASE " \o ToJson(Case))
+(* ---- enumerator of arbitrary short contents (no-crash clause + conformance of the parser model) ---- *)
+CONSTANTS RawAlphabet, RawLen, RawPrefixes
+RawStrings == UNION {[1 .. n -> RawAlphabet] : n \in 0 .. RawLen}
+RawInit == doc \in {p \o s : p \in RawPrefixes, s \in RawStrings}
+RawSpec == RawInit /\ [][Next]_doc
+Summary(r) == [err |-> r.err,
+               secs |-> LET ss == SetToSeq(DOMAIN r.d) IN
+                        [i \in 1 .. Len(ss) |-> [name |-> ss[i],
+                           kvs |-> LET ks == SetToSeq(DOMAIN r.d[ss[i]]) IN
+                                   [j \in 1 .. Len(ks) |-> [key |-> ks[j], kind |-> r.d[ss[i]][ks[j]].k,
+                                                             text |-> r.d[ss[i]][ks[j]].t]]]]]
+RawCase == [content |-> doc, parsed |-> Summary(Parse(<<doc>>))]
+EmitRaw == PrintT("@@CASE " \o ToJson(RawCase))
 RoundTripInv == RoundTrips(Concrete(doc))
 CommentInv == CommentInert(Concrete(doc))
 =============================================================================
